@@ -2,7 +2,7 @@
 evidence and replay files.  Everything runs offline from files on disk."""
 import json, os, re, subprocess, sys, time, hashlib, random
 
-V = "/verif"
+V = os.environ.get("VERIF_ROOT") or os.path.dirname(os.path.dirname(os.path.abspath(__file__)))
 B = V + "/.build"
 HARNESS = B + "/harness-target/release/utpharness"
 MODEL = B + "/modelrun"
